@@ -115,7 +115,7 @@ def strip_macro_definitions(text: str) -> tuple[str, bool]:
             j += 1
         if c == 0:
             body = text[m.end() : j - 1]
-            if body.count('"') % 2 or body.count("'") % 2 or body.count("{") != body.count("}") or "/*" in body or "-8<-" in body or "->8-" in body:
+            if body.count('"') % 2 or body.count("'") % 2 or body.count("{") != body.count("}") or "/*" in body or "//" in body or "-8<-" in body or "->8-" in body:
                 judgeable = False
             out.append(text[i : m.start()])
             i = j
@@ -133,6 +133,29 @@ def lexical_verdict(text: str) -> str | None:
     rest, judgeable = strip_macro_definitions(text)
     if not judgeable:
         return None
+    # macro references are expanded textually before anything is lexed - inside comments and strings too, and
+    # across line ends (a `${` at the end of a comment line takes the text up to the next balanced `}` with it):
+    # take them out first, brace-counted exactly as the expander does; an unterminated one stays and is not judged
+    out = []
+    i, n = 0, len(rest)
+    while i < n:
+        if rest.startswith("${", i):
+            j = i + 2
+            c = 1
+            while j < n and c > 0:
+                if rest[j] == "{":
+                    c += 1
+                elif rest[j] == "}":
+                    c -= 1
+                j += 1
+            if c:
+                return None
+            out.append(" M ")
+            i = j
+            continue
+        out.append(rest[i])
+        i += 1
+    rest = "".join(out)
     depth = 0
     i, n = 0, len(rest)
     while i < n:
